@@ -13,6 +13,7 @@ import LispModel.Preamble
 import LispModel.Spec.Readable
 import LispModel.Util
 import LispModel.Proofs.Reader
+import LispModel.Proofs.SeedLaws
 namespace LispModel.Props.C05
 open LispModel
 
@@ -45,5 +46,23 @@ theorem reader_macro_at_eof_is_an_error : isPanic (Read.readStr {} (bytes% "'"))
 theorem placeholder_without_table_reads : isPanic (Read.readStr {} (bytes% "$x")) = false := by decide
 set_option maxRecDepth 10000 in
 theorem empty_constructor_is_an_error : isPanic (Read.readStr { hasEnv := true } (bytes% "«»")) = false := by decide
+
+/-! ## laws added after the seeded changes of rounds 3–5 -/
+open LispModel.Proofs.SeedLaws (Sy Ls readsAs)
+
+/-- `True`, `NIL`, `Nil`, `FALSE`, `TRUE`, `False` read as SYMBOLS … -/
+theorem capitalised_literals_are_symbols :
+    (readsAs (bytes% "True") (Sy "True") && readsAs (bytes% "NIL") (Sy "NIL") &&
+     readsAs (bytes% "Nil") (Sy "Nil") && readsAs (bytes% "FALSE") (Sy "FALSE") &&
+     readsAs (bytes% "TRUE") (Sy "TRUE") && readsAs (bytes% "False") (Sy "False")) = true :=
+  Proofs.SeedLaws.C05.capitalised_literals_are_symbols
+
+/-- … and `nil`, `true`, `false` as the literals -/
+theorem lowercase_literals_are_literals :
+    (readsAs (bytes% "nil") .nil && readsAs (bytes% "true") (.bool true) &&
+     readsAs (bytes% "false") (.bool false) &&
+     readsAs (bytes% "(nil Nil true True false False)")
+       (Ls [.nil, Sy "Nil", .bool true, Sy "True", .bool false, Sy "False"])) = true :=
+  Proofs.SeedLaws.C05.lowercase_literals_are_literals
 
 end LispModel.Props.C05
